@@ -563,7 +563,7 @@ func (s *scanningState) scan(line []byte) (bool, error) {
 			}
 		}
 		// Switch to race detection mode.
-		if bytes.Equal(trimmed, raceHeaderFooter) {
+		if s.state == looking && bytes.Equal(trimmed, raceHeaderFooter) {
 			// TODO(maruel): We should buffer it in case the next line is not a
 			// WARNING so we can output it back.
 			s.state = gotRaceHeader1
